@@ -107,6 +107,7 @@ fn real_main() {
                 "deep_tree" => families::Family::DeepTree,
                 "rich_encrypted" => families::Family::RichEncrypted,
                 "dangling" => families::Family::Dangling,
+                "shared_header" => families::Family::SharedHeader,
                 _ => families::Family::Rich,
             };
             let mut pool = docs::Pool::new(&repo, env_seed());
